@@ -1,4 +1,5 @@
 """C11 — at most one sync session per peer and document (safety half)."""
+import re
 from . import mir
 from .mir import trace, origin_summary, callee_matches
 from .common import find_calls, one_call, call_outcomes, TRUTH, flip
@@ -668,6 +669,47 @@ def r6(ctx):
     ctx.floor("C11.R6", 20)
 
 
+def r7(ctx):
+    """a slot lives as long as its document is being synced: the per-peer map of a document (peer -> PeerState) only ever grows
+    by `entry(peer).or_default()`; nothing removes, replaces, clears or filters its entries (a slot dropped while a session is
+    running comes back Idle - "never two sessions in progress at once"), and the only thing that discards a whole document's
+    slots is NamespaceStates::remove (leaving the document)"""
+    f = ctx.facts
+    MUT = {"remove", "remove_entry", "clear", "retain", "insert", "pop_first", "pop_last", "drain", "split_off", "append", "extract_if", "take", "replace", "swap", "first_entry", "last_entry", "into_iter", "into_values"}
+    n_maps = 0
+    found = []
+    for b in f.bodies.values():
+        if not b.path.startswith("engine::") or b.rec.get("derived"):
+            continue
+        for bi, t in b.calls():
+            if mir.is_noise(t.get("x")):
+                continue
+            full = (t["f"].get("full") or "") + " " + " ".join(t["f"].get("targs") or [])
+            nm = t["f"].get("name")
+            if "engine::state::PeerState" in full and ("BTreeMap" in full or "HashMap" in full or "btree_map" in full or "hash_map" in full):
+                n_maps += 1
+                if nm in MUT or (nm == "take" and "mem::" in full):
+                    found.append((b, t, nm))
+            if nm in ("take", "replace", "swap") and "std::mem::" in full and "PeerState" in full:
+                found.append((b, t, "mem::" + nm))
+        # assignments to the `nodes` field of NamespaceState
+        for bi, si, st in b.statements():
+            if st["k"] == "assign" and any(pr[0] == "field" and pr[2] == "nodes" for pr in st["p"]["p"]) and "NamespaceState" in str(b.locals[st["p"]["l"]]["ty"]):
+                if not any(pr[0] == "field" and pr[2] != "nodes" for pr in st["p"]["p"][-1:]):
+                    found.append((b, {"sp": st["sp"], "f": {"name": "assign"}}, "assignment to NamespaceState.nodes"))
+    if n_maps < 1:
+        raise mir.AnchorMissing("no call on the per-peer map (a map with PeerState values) found under engine::")
+    for b, t, nm in found:
+        ctx.bad("C11.R7", b.path, "per-peer-slot-discarded[%s]" % nm, "`%s` on the per-peer slot map: a slot can be dropped or replaced while its session is running" % nm, t["sp"])
+    ctx.ok("C11.R7", "engine::state", "per-peer-slots-only-grow", "%d calls on the per-peer map, none of them removes, replaces, clears or filters entries" % n_maps, None)
+    # whole-document removal only through NamespaceStates::remove, called only when leaving
+    rm = f.body("engine::state::NamespaceStates::remove")
+    ctx.touch(rm)
+    callers = sorted({b.rec.get("root") or b.path for b in f.bodies.values() for _, t in b.calls() if callee_matches(t, r"engine::state::NamespaceStates::remove$")})
+    ctx.check(callers and all(re.search(r"LiveActor(::<D>)?::leave(::\{closure#0\})?$", c) for c in callers), "C11.R7", rm.path, "document-slots-discarded-only-by-leave", "NamespaceStates::remove is called from %s" % callers, rm.sp)
+    ctx.floor("C11.R7", 2)
+
+
 def run(ctx):
     ctx.run_rule("C11.R1", r1)
     ctx.run_rule("C11.R2", r2)
@@ -675,3 +717,4 @@ def run(ctx):
     ctx.run_rule("C11.R4", r4)
     ctx.run_rule("C11.R5", r5)
     ctx.run_rule("C11.R6", r6)
+    ctx.run_rule("C11.R7", r7)
